@@ -22,6 +22,7 @@ FAMS_Q = {
     "bad": ("bad", {}),
     "xmod": ("xmod", {}),
     "plural": ("plural", {}),
+    "widecond": ("widecond", {}),
     "xmod_l": ("xmod", {"small": False}),
 }
 
